@@ -127,13 +127,24 @@ def workloads(tier):
         pick.append(s)
     if tier == 'quick':
         pick = pick[::2]
+    else:
+        # thorough: every series of the base space, not one per kind, and the representatives of the next two spaces
+        # (two deviations; three file patches)
+        pick = list(base)
+        for more in (tq.enumerate_series(2, 2, allow_after_failure=1), tq.enumerate_series(3, 1, allow_after_failure=1)):
+            for s in more:
+                kinds = tuple(sorted(wsweep.tags_of(s))) + (len(s), sum(len(p.fps) for p in s))
+                if kinds in seen:
+                    continue
+                seen.add(kinds)
+                pick.append(s)
     return m0, pick
 
 
 def run(tier, seed):
     res = common.Result('fault_enumeration')
     m0, W = workloads(tier)
-    tasks = [(m0, s, {'backup': b, 'quiet': True}, drv, tier != 'quick' or i % 4 == 0) for i, s in enumerate(W) for b in ('always', 'never') for drv in DRIVERS]
+    tasks = [(m0, s, {'backup': b, 'quiet': True}, drv, (tier != 'quick' and i % 8 == 0) or (tier == 'quick' and i % 4 == 0)) for i, s in enumerate(W) for b in ('always', 'never') for drv in DRIVERS]
     # a file with a line longer than any write buffer: such a line goes out in a write of its own, which may be cut short
     mbig = m0.clone()
     mbig.t['big'] = ([b'b0', b'L' * 20000, b'b2', b'b3', b'b4', b'b5'], 0o644)
@@ -153,10 +164,11 @@ def run(tier, seed):
     cov['workloads'] = len(W)
     cov['configurations'] = len(tasks)
     cov['fault_positions'] = calls
-    cov['rule'] = ('for each workload (one representative series per combination of template kinds with <= 2 file patches and <= 1 deviation: success and failing pushes, creates, deletes, renames, mode changes, '
+    cov['rule'] = ('for each workload (quick: one representative series per combination of template kinds with <= 2 file patches and <= 1 deviation; thorough: every series of that space and one representative per '
+                   'combination of kinds with two deviations or three file patches: success and failing pushes, creates, deletes, renames, mode changes, '
                    'rejects) x --backup {always,never} x driver {sequential, parallel with the serial schedule lowest-worker-first, highest-worker-first}: a fault-free run counts the n mutating libc calls '
                    '(open for writing, write, unlink, mkdir, rmdir, fchmod, ...), then one run per k in 1..n and per applicable errno (EIO; ENOSPC for write/mkdir/open; EACCES for open/unlink) with exactly '
-                   'that call failing; short writes at every write for a quarter (thorough: all) of the workloads. Oracle when the fault fired: exit class non-zero and not a crash; stderr names the failing '
+                   'that call failing; short writes at every write for a quarter (thorough: an eighth, of twenty times as many) of the workloads. Oracle when the fault fired: exit class non-zero and not a crash; stderr names the failing '
                    'path (any trailing part of it); nothing is appended to applied-patches unless the tree equals the model after exactly those patches; a short write changes nothing. '
                    'distinct_nontrivial = runs in which the injected fault was reached')
     res.assumptions = ['faults are injected at the libc boundary of the dynamically linked binary', 'parallel runs are serialised by the cooperative scheduler so that "the k-th call" is reproducible']
